@@ -101,6 +101,7 @@ def late_specs():
     """validators registered by schema path AFTER instances of the sections exist"""
     for first in range(len(LATE_FIRST)):
         yield {'late': first, 'k': 0}
+        yield {'late': first, 'k': 0, 'unreg': True}
         for k in range(1, 12):
             yield {'late': first, 'k': k}
 
@@ -109,6 +110,9 @@ def late_script(spec):
     lines, sid = schema.emit_schema(LATE_DECLS)
     L = list(lines) + ['init 0 %d 0' % sid, 'parse_buf 0 %s' % hx(LATE_FIRST[spec['late']])]
     L += ['set_validate_func 0 %s 1' % hx(r) for r in LATE_REGS]
+    if spec.get('unreg'):
+        L += ['set_validate_func 0 %s 1' % hx(r) for r in LATE_REGS]       # registering twice is harmless ...
+        L += ['set_validate_func 0 %s 0' % hx(r) for r in LATE_REGS]       # ... and NULL removes the callback again
     L += ['note second', 'failat %d' % spec['k'], 'parse_buf 0 %s' % hx(LATE_SECOND), 'failat 0', 'dump 0']
     return '\n'.join(L)
 
@@ -126,6 +130,12 @@ def late_judge(spec, events, death):
     v.notes['late_registration_cases'] = 1
     # required subsequence (additional validations of an unchanged option are tolerated)
     need = [(n, vals) for n, vals in LATE_EXPECT]
+    if spec.get('unreg'):
+        if tr:
+            v.bad('late-registration:still-invoked-after-removal', 'validators removed by path (NULL) are still invoked: %r' % tr[:3])
+        if not r or r[0]['rc'] != 0:
+            v.bad('late-registration:rejected', 'second text rejected')
+        return v
     if spec['k'] == 0:
         pos = 0
         for t in tr:
